@@ -60,7 +60,23 @@ pub struct WorkerOut {
     pub idx: Option<u64>,
 }
 
+/// index of the case the worker is processing and when it started (watchdog: a worker that
+/// sits on one case of a multi-case chunk reports which one, so the parent need not bisect)
+pub static CURRENT_CASE: std::sync::atomic::AtomicU64 = std::sync::atomic::AtomicU64::new(u64::MAX);
+pub static CURRENT_SINCE_MS: std::sync::atomic::AtomicU64 = std::sync::atomic::AtomicU64::new(0);
+
+pub fn now_ms() -> u64 {
+    static T0: std::sync::OnceLock<Instant> = std::sync::OnceLock::new();
+    T0.get_or_init(Instant::now).elapsed().as_millis() as u64
+}
+
 impl WorkerOut {
+    /// the worker starts case `i`
+    pub fn at(&mut self, i: u64) {
+        self.idx = Some(i);
+        CURRENT_SINCE_MS.store(now_ms(), std::sync::atomic::Ordering::Relaxed);
+        CURRENT_CASE.store(i, std::sync::atomic::Ordering::Relaxed);
+    }
     pub fn fail(&mut self, key: impl Into<String>, case: impl Into<String>, detail: impl Into<String>) {
         let key = key.into();
         let case = case.into();
@@ -225,7 +241,12 @@ enum RunRes {
     Ok(WorkerOut),
     Died(String),
     TimedOut,
+    /// the worker's watchdog reported that it sat on this one case for too long
+    Stuck(u64),
 }
+
+/// seconds a worker may spend on one case of a multi-case chunk before its watchdog reports it
+pub const STUCK_SECS: u64 = 30;
 
 fn run_worker(id: &str, tier: Tier, stage: usize, a: u64, b: u64, timeout: Duration, dev: bool) -> RunRes {
     // stages named "dev..." run in the harness binary built with the dev profile
@@ -297,6 +318,15 @@ fn run_worker(id: &str, tier: Tier, stage: usize, a: u64, b: u64, timeout: Durat
                 }
                 RunRes::Died(format!("no result line; stderr: {}", err))
             } else {
+                for line in out.lines().rev() {
+                    if let Some(rest) = line.strip_prefix("WORKER-STUCK ") {
+                        if let Ok(i) = rest.trim().parse::<u64>() {
+                            if i >= a && i < b && b - a > 1 {
+                                return RunRes::Stuck(i);
+                            }
+                        }
+                    }
+                }
                 RunRes::Died(format!("status {:?}; stderr: {}", st, err.trim()))
             }
         }
@@ -326,6 +356,12 @@ pub fn orchestrate(p: &dyn Prop, tier: Tier, plan: &Plan, jobs: usize) -> CheckR
         ranges.reverse();
         let queue = std::sync::Mutex::new(ranges);
         let results = std::sync::Mutex::new((WorkerOut::default(), Vec::<String>::new()));
+        // cases a worker's watchdog named as stuck, and how many hangs were confirmed so far: the
+        // first few are confirmed by an isolated re-run, after that the watchdog's word is taken
+        // (a change that makes a whole family of inputs hang would otherwise cost minutes per case)
+        let stuck_seen = std::sync::Mutex::new(std::collections::BTreeSet::<u64>::new());
+        let hangs_confirmed = std::sync::atomic::AtomicUsize::new(0);
+        const CONFIRM_FIRST: usize = 4;
         std::thread::scope(|s| {
             for _ in 0..jobs {
                 s.spawn(|| loop {
@@ -334,16 +370,56 @@ pub fn orchestrate(p: &dyn Prop, tier: Tier, plan: &Plan, jobs: usize) -> CheckR
                         Some(r) => r,
                         None => break,
                     };
-                    match run_worker(p.id(), tier, si, a, b, st.timeout, st.name.starts_with("dev")) {
+                    // one case of a multi-case stage (isolated by the watchdog or by bisection):
+                    // its own wall cap, not the whole chunk's
+                    let cap = if st.chunk > 1 && b - a == 1 { st.timeout.min(Duration::from_secs(2 * STUCK_SECS)) } else { st.timeout };
+                    match run_worker(p.id(), tier, si, a, b, cap, st.name.starts_with("dev")) {
                         RunRes::Ok(o) => results.lock().unwrap().0.merge(o),
+                        RunRes::Stuck(i) => {
+                            {
+                                let mut q = queue.lock().unwrap();
+                                // the rest of the chunk goes back in pieces, so that further stuck
+                                // cases in it are met by several workers at once, not one after another
+                                for (lo, hi) in [(i + 1, b), (a, i)] {
+                                    if lo >= hi {
+                                        continue;
+                                    }
+                                    let pieces = (hi - lo).min(8);
+                                    let step = (hi - lo).div_ceil(pieces);
+                                    let mut x = lo;
+                                    while x < hi {
+                                        q.push((x, (x + step).min(hi)));
+                                        x += step;
+                                    }
+                                }
+                                if hangs_confirmed.load(std::sync::atomic::Ordering::SeqCst) < CONFIRM_FIRST {
+                                    // the named case alone, confirmed by one isolated run
+                                    stuck_seen.lock().unwrap().insert(i);
+                                    q.push((i, i + 1));
+                                    continue;
+                                }
+                            }
+                            let mut r = results.lock().unwrap();
+                            r.0.evals += 1;
+                            r.0.stage = Some(si);
+                            r.0.idx = Some(i);
+                            let case = format!("{}|{}", st.name, p.case_text(tier, si, i));
+                            r.0.fail(p.crash_key(tier, si, i, "hang"), case, format!("worker process sat on this case for more than {} s (reported by its watchdog; not re-run alone because {} hangs of this stage were already confirmed)", STUCK_SECS, CONFIRM_FIRST));
+                        }
                         bad => {
                             let how = match &bad {
                                 RunRes::TimedOut => "hang",
                                 _ => "abort",
                             };
                             if b - a == 1 {
-                                // isolated: confirm once more, then it is a verdict
-                                let again = run_worker(p.id(), tier, si, a, b, st.timeout, st.name.starts_with("dev"));
+                                // isolated: confirm once more, then it is a verdict (a case the
+                                // watchdog had named already has its second observation)
+                                let named = how == "hang" && stuck_seen.lock().unwrap().contains(&a);
+                                let enough = how == "hang" && hangs_confirmed.load(std::sync::atomic::Ordering::SeqCst) >= CONFIRM_FIRST;
+                                let again = if named || enough { RunRes::TimedOut } else { run_worker(p.id(), tier, si, a, b, cap, st.name.starts_with("dev")) };
+                                if how == "hang" {
+                                    hangs_confirmed.fetch_add(1, std::sync::atomic::Ordering::SeqCst);
+                                }
                                 let mut r = results.lock().unwrap();
                                 match again {
                                     RunRes::Ok(o) => {
@@ -357,7 +433,7 @@ pub fn orchestrate(p: &dyn Prop, tier: Tier, plan: &Plan, jobs: usize) -> CheckR
                                         let detail = match (&bad, &again) {
                                             (RunRes::Died(d), _) => d.clone(),
                                             (_, RunRes::Died(d)) => d.clone(),
-                                            _ => format!("no result within {:?}", st.timeout),
+                                            _ => format!("no result within {:?}", cap),
                                         };
                                         // Rust's panic exit status means the *harness* panicked outside a
                                         // guard (engine calls are under catch_unwind): not a verdict
